@@ -55,25 +55,29 @@ def rule_retr_add(repo):
         f = repo.func(LT, G + 'Type.add_')
         pp = f.pos_params     # cls, input, other
         rv = returned_calls(f)
-        okc = okl = okn = okt = False
+        okc = okl = okn = okt = True
         n_found = t_found = None
-        for r, v in rv:
+        if not rv:
+            okc = False
+        for r, v in rv:                   # EVERY return path is the one atomic write input.copy_(Exp(other[..., :k]) * input)
+            c_ok = l_ok = n_ok = t_ok = False
             if isinstance(v, ast.Call) and isinstance(v.func, ast.Attribute) and v.func.attr == 'copy_' and dotted(v.func.value) == pp[1] and v.args:
-                okc = True
+                c_ok = True
                 prod = v.args[0]
-                okl = _left_retraction(prod, pp[2], pp[1])
+                l_ok = _left_retraction(prod, pp[2], pp[1])
                 for n in ast.walk(prod):
                     c = lietensor_ctor(n)
                     if c:
                         data, ltn = c
                         t_found = ltn
-                        okt = ltn == ALG[G] + '_type'
+                        t_ok = ltn == ALG[G] + '_type'
                         if isinstance(data, ast.Subscript) and dotted(data.value) == pp[2] and isinstance(data.slice, ast.Tuple) \
                                 and len(data.slice.elts) == 2 and isinstance(data.slice.elts[1], ast.Slice):
                             sl = data.slice.elts[1]
                             if sl.lower is None and isinstance(sl.upper, ast.Constant):
                                 n_found = sl.upper.value
-                                okn = n_found == table[G]['manifold']
+                                n_ok = n_found == table[G]['manifold']
+            okc, okl, okn, okt = okc and c_ok, okl and l_ok, okn and n_ok, okt and t_ok
         res.inst({'function': f.fq, 'copy_into_input': okc, 'left_product': okl, 'slice': n_found, 'manifold': table[G]['manifold'],
                   'algebra_type': t_found}, f.fq)
         if not okc:
@@ -269,7 +273,11 @@ def _rules_core(repo, tier):
 
 def rules(repo, tier):
     from ..memo import rule_memo
+    from ..optional import rule_optional
+    from ..axisdefault import rule_axisdefault
     return list(_rules_core(repo, tier)) + [rule_memo(repo, 'C05.MEMO', 'history independence: nothing computed from the contents of a tensor argument is kept '
                                                       'under the identity, address or version of that tensor, in module-level storage, or published from a generator '
                                                       'before it is complete - a later call with the same object and other contents must not be answered from it',
-                                                      ['pypose.lietensor.lietensor', 'pypose.lietensor.operation', 'pypose.lietensor.basics', 'pypose.lietensor.utils'], floor=3)]
+                                                      ['pypose.lietensor.lietensor', 'pypose.lietensor.operation', 'pypose.lietensor.basics', 'pypose.lietensor.utils'], floor=3),
+            rule_optional(repo, 'C05.OPT', ['pypose.lietensor.lietensor', 'pypose.lietensor.operation', 'pypose.lietensor.basics', 'pypose.lietensor.utils']),
+            rule_axisdefault(repo, 'C05.AXDEF', ['pypose.lietensor.lietensor', 'pypose.lietensor.operation', 'pypose.lietensor.basics', 'pypose.lietensor.utils', 'pypose.lietensor.convert', 'pypose.basics.ops'])]
